@@ -144,9 +144,8 @@ func GenHistory(seed uint64, idx int, p Profile) History {
 	gen.Threshold = []string{"0.5", "0.5", "0.6", "0.666666666666666667", "1", "0.75"}[r.Intn(6)]
 	gen.SlashFrac = []string{"0.01", "0.5", "0.000001", "1"}[r.Intn(4)]
 	gen.Chains = [][]string{{"1"}, {"1", "137"}, {"1"}}[r.Intn(3)]
-	// gen.FastUnbond stays false: with an unbonding time of a nanosecond an emptied validator is REMOVED inside the
-	// staking end-block, which moves its outstanding rewards (distribution hook) in the same ABCI call the oracle's
-	// accounting is observed in - the books of the oracle could no longer be told apart from staking's
+	// with an unbonding time of a nanosecond an emptied validator is REMOVED by the staking end-block one block later
+	gen.FastUnbond = p.Jail && r.Chance(40)
 	g.h.Genesis = gen
 	for i := nv; i < nv+4; i++ {
 		g.users = append(g.users, i)
